@@ -363,6 +363,12 @@ func (w *bsWorld) exec(r *Run, line string) string {
 		err := w.p.ProcessBlock(ctx, blk)
 		if ws[2] != "-" {
 			_, e2 := w.ctl.Exec(`UPDATE verif_fault SET armed=0`)
+			if e2 != nil && strings.Contains(e2.Error(), "locked") {
+				// the processor still holds its write transaction: neither committed nor rolled back
+				r.Fail(fmt.Sprintf("[C07] after ProcessBlock(%d) returned `%v` the store stays locked for every other connection: the block's transaction was neither committed nor rolled back, so no retry can succeed", bn, err),
+					append([]string{"new"}, w.lines...))
+				panic(stopRun{})
+			}
 			must(e2)
 		}
 		obs = bsErr(err)
@@ -445,7 +451,7 @@ func bsProbe(maxBlock uint64, nLeaves uint64) []string {
 // surviving blocks, fault-free (the twin is built from scratch each time)
 func (w *bsWorld) compareWithTwin(r *Run, why string) {
 	if w.p.IsHalted() {
-		r.Fail("[C04,C07,C14] "+why+": the syncer is halted although every block it was given was well-formed", append([]string{"new"}, w.lines...))
+		r.Fail("[C01,C04,C07,C14] "+why+": the syncer is halted although every block it was given was well-formed", append([]string{"new"}, w.lines...))
 		return
 	}
 	twin := &bsWorld{}
